@@ -396,6 +396,16 @@ static void op_rs(void) {
         chunkqueue_append_file_fd(cq, fn, fd, 0, (off_t)len);
         if (bk == 't') cq->last->file.is_temp = 1;
         break; }
+      case 'P': {   /* FILE_CHUNK over a proper prefix of a longer file (100 more bytes follow) */
+        unsigned char *tmp = malloc(len + 100);
+        memcpy(tmp, body, len); memset(tmp + len, 'T', 100);
+        int rc = write_file(fpath, tmp, len + 100, 1);
+        free(tmp);
+        if (0 != rc) { bad = 1; break; }
+        int fd = open(fpath, O_RDONLY | O_CLOEXEC);
+        if (fd < 0) { bad = 1; break; }
+        chunkqueue_append_file_fd(cq, fn, fd, 0, (off_t)len);
+        break; }
       case 'p': {
         unsigned char *tmp = malloc(len + 3);
         memcpy(tmp, "JNK", 3); memcpy(tmp + 3, body, len);
